@@ -186,7 +186,7 @@ class Ctx:
 
     def need(self, thing, what: str):
         """Anchor that must exist for the analysis to make sense (else exit 2)."""
-        if thing is None or thing == [] or thing is False:
+        if thing is None or thing is False or (hasattr(thing, "__len__") and len(thing) == 0):
             raise AnalysisError(f"{self.prop}: anchor not found: {what}")
         return thing
 
